@@ -79,7 +79,7 @@ def run(res, prop, tier, seed, work, replay=None):
     # second source of edges: the pool histories (blocks made by a real arbitrating publisher from its pool, offered to it and to
     # the follower, each preceded by the same block carrying one more, invalid, transaction)
     out2 = vlib.fresh_dir(os.path.join(work, "rec2"))
-    env2 = dict(os.environ, VERIF_OUT=out2, VERIF_SEED=str(seed), VERIF_HISTORIES=str(max(3, nh // 3)), VERIF_BLOCKS=str(max(5, nb // 2)))
+    env2 = dict(os.environ, VERIF_OUT=out2, VERIF_SEED=str(seed), VERIF_HISTORIES=str(max(4, nh // 3)), VERIF_BLOCKS=str(max(5, nb // 2)))
     p2 = vlib.run([vbin, "-test.run", "TestVerifPool$", "-test.count=1", "-test.timeout", "3000s"], env=env2, timeout=3100, check=False)
     if p2.returncode != 0:
         raise Infra("pool recorder failed:\n" + "\n".join(l for l in (p2.stdout or "").splitlines() if "INFO" not in l and "DEBUG" not in l and "WARN" not in l)[-2000:])
